@@ -5,6 +5,8 @@ mkdir -p build evidence replays
 command -v verus >/dev/null || { echo "verus not on PATH"; exit 1; }
 command -v cargo-kani >/dev/null 2>&1 || command -v kani >/dev/null 2>&1 || echo "warning: kani not found (C18 kernel check will be UNDECIDED)"
 python3 vf/main.py lint || exit 1
-# optional warm-up: the bounded SQLite comparison harness (C16) is otherwise built on first use (about a minute)
-CARGO_NET_OFFLINE=true python3 vf/main.py dyn-build sqlite_equiv || echo "warning: the bounded SQLite comparison harness did not build (C16 will be UNDECIDED)"
+# optional warm-up: the bounded execution harnesses (C08 C11 C12 C13 C14 C16 C18 C19) are otherwise built on first use (1-2 min each)
+for e in sqlite_equiv replica_exec server_conform http_conform; do
+  CARGO_NET_OFFLINE=true python3 vf/main.py dyn-build $e || echo "warning: the bounded execution harness $e did not build (its checks will be UNDECIDED)"
+done
 exit 0
